@@ -329,7 +329,7 @@ def classify(prop, case, mismatch, findings):
     ns["mismatch"] = mismatch
     ns["kind"] = mismatch.get("kind")
     ns.update({"len": len, "max": max, "min": min, "abs": abs, "any": any, "all": all, "isinstance": isinstance,
-               "int": int, "tuple": tuple, "list": list, "sum": sum})
+               "int": int, "tuple": tuple, "list": list, "sum": sum, "float": float, "zip": zip})
     for f in findings:
         if f.get("status") != "open" or f["property"] != prop:
             continue
